@@ -99,7 +99,7 @@ def attribute_seq(aid):
     if loc in (7, 8, 95): return 'C02'
     if loc == 9: return 'C18'
     if 90 <= loc <= 92: return 'C16'
-    if loc in (93, 94): return 'C05'
+    if loc in (93, 94, 99): return 'C05'
     if loc == 96: return 'C03'
     if loc == 97: return 'C06'
     if loc == 98: return 'C04'
@@ -208,6 +208,7 @@ def attribute_copy(aid):
     if aid in (9100,) or 9001 <= aid <= 9009: return 'C06'
     if aid == 9101: return 'C07'
     if aid in (801, 802): return 'C08'
+    if aid % 100 == 99: return 'C05'
     if 810 <= aid <= 813: return 'C05'
     if aid == 890: return 'C16'
     if aid == 897: return 'C06'
@@ -228,6 +229,7 @@ def attribute_layout(aid):
 
 
 def attribute_ref(aid):
+    if aid % 100 == 99 and aid < 9000: return 'C05'
     if aid == 9100 or 9001 <= aid <= 9009 or aid == 297: return 'C06'
     if aid == 9101: return 'C07'
     loc = aid % 100
@@ -237,6 +239,7 @@ def attribute_ref(aid):
 
 
 def attribute_elem(aid):
+    if aid % 100 == 99 and aid < 9000: return 'C05'
     if aid == 9100 or 9001 <= aid <= 9009 or aid == 297: return 'C06'
     if aid == 9101: return 'C07'
     if aid == 801: return 'C08'
@@ -307,7 +310,14 @@ def c01(tier, seed): return pool_seq('C01', CORE, tier)
 def c02(tier, seed):
     obs = pool_layout('C02', tier, seed)
     obs += pool_seq('C02', CORE if tier == 'thorough' else ['V1', 'V2', 'M1', 'F2', 'N2'], tier, ops_filter=None if tier == 'thorough' else ['OP_ERASE', 'OP_RESERVE', 'OP_EMPLACE', 'OP_CLEAR'])
-    obs += pool_copy('C02', ['V2', 'F1'] if tier == 'quick' else TRIVIAL, tier, ops=['OP_COPY_ASSIGN', 'OP_MOVE_ASSIGN'], akinds=('st-ne',))
+    obs += pool_copy('C02', ['V2', 'F1'] if tier == 'quick' else TRIVIAL, tier, ops=['OP_COPY_ASSIGN', 'OP_MOVE_ASSIGN'], akinds=('st-ne', 'prop-ne'))
+    # emplace_back from sources whose item size differs from the stored type's (a byte copy of the source would leave the span)
+    for pair in (10, 11, 2, 6, 7):
+        for form in ((1, 4, 9) if tier == 'quick' else (1, 2, 3, 4, 5, 9, 10)):
+            for varying in (0, 1):
+                if varying and form >= 9: continue
+                obs.append(dict(prop='C02', name=f"emplace/p{pair}/f{form}/{'vary' if varying else 'fixed'}", harness='h_emplace.cpp',
+                                defines=[f'-DPAIR={pair}', f'-DFORM={form}', f'-DVARYING={varying}'], entry='h_entry', cfg=dict(slack='min', budget_s=600)))
     return obs
 
 
@@ -333,12 +343,13 @@ def c05(tier, seed):
     lists = ['F1', 'V1', 'V2', 'M1'] if tier == 'quick' else TRIVIAL + ['N1', 'N2']
     obs += pool_copy('C05', lists, tier, akinds=('ae', 'st-ne', 'prop-ne') if tier == 'quick' else tuple(ALLOC_KINDS))
     obs += pool_seq('C05', ['V1', 'V2', 'F1', 'M1', 'V4'] if tier == 'quick' else TRIVIAL + ['V4'], tier, ops_filter=['OP_RESERVE'])
+    obs += pool_seq('C05', ['V1', 'V3', 'N2', 'F2'] if tier == 'quick' else CORE, tier, ops_filter=['OP_ERASE', 'OP_ERASE_RANGE', 'OP_POP'])
     return obs
 
 
 def c06(tier, seed):
     obs = pool_seq('C06', NONTRIVIAL, tier)
-    obs += pool_elem('C06', NONTRIVIAL, akinds=('ae', 'st-ne'))
+    obs += pool_elem('C06', NONTRIVIAL, akinds=('ae', 'st-ne', 'prop-ne'))
     obs += [ref_ob('C06', lid, part) for lid in NONTRIVIAL for part in (2, 4)]
     obs += pool_copy('C06', NONTRIVIAL, tier, akinds=('ae', 'st-ne') if tier == 'quick' else tuple(ALLOC_KINDS))
     return obs
@@ -373,11 +384,18 @@ def c08(tier, seed):
                     obs.append(copy_ob('C08', lid, op, akind=f"{nm}{'eq' if eq else 'ne'}", aflags=fl, eq=eq, ka=(1 if tier == 'quick' else 2), kb=1))
         obs.append(copy_ob('C08', lid, 'OP_COPY_ASSIGN', akind='ae'))
         obs.append(copy_ob('C08', lid, 'OP_MOVE_ASSIGN', akind='ae'))
+    # elements: construction / assignment / swap under every propagation combination
+    for lid in (['V1', 'N2'] if tier == 'quick' else ['F1', 'V1', 'M1', 'N1', 'N2']):
+        for nm, fl in combos:
+            if 'o1' in nm: continue
+            for op in ELEM_OPS:
+                if tier == 'quick' and op in ('OP_FROM_REF', 'OP_TO_REF'): continue
+                obs.append(elem_ob('C08', lid, op, akind=nm, aflags=fl))
     return dedup(obs)
 
 
 def c09(tier, seed):
-    return pool_copy('C09', CORE, tier, akinds=('ae', 'st-ne') if tier == 'quick' else tuple(ALLOC_KINDS))
+    return pool_copy('C09', CORE, tier, akinds=('ae', 'st-ne', 'prop-ne') if tier == 'quick' else tuple(ALLOC_KINDS))
 
 
 def c10(tier, seed):
@@ -484,6 +502,7 @@ def attribute_exc(aid):
 
 
 def attribute_empty(aid):
+    if aid % 100 == 99 and aid < 9000: return 'C05'
     if aid == 9100 or 9001 <= aid <= 9009: return 'C06'
     if aid == 9101: return 'C07'
     loc = aid % 100
@@ -494,6 +513,7 @@ def attribute_empty(aid):
 
 
 def attribute_const(aid):
+    if aid % 100 == 99 and aid < 9000: return 'C05'
     if aid == 9100 or 9001 <= aid <= 9009: return 'C06'
     if aid == 9101: return 'C07'
     return 'C19'
